@@ -24,13 +24,13 @@ TRUSTED_BASE = [
 # reference encoder/decoder), otherwise only X lines are failing inputs.
 PROPS = {
     'C01': dict(engine='codec', modes=['rt'], witness=False, values=(16, 300)),
-    'C02': dict(engine='codec', modes=['hostile'], witness=False, values=(6, 60)),
+    'C02': dict(engine='codec', modes=['hostile'], witness=False, values=(6, 30)),
     'C03': dict(engine='codec', modes=['bytes'], witness=True, values=(60, 2000)),
-    'C04': dict(engine='codec', modes=['lang'], witness=True, values=(6, 60)),
-    'C05': dict(engine='codec', modes=['cut'], witness=False, values=(8, 120)),
+    'C04': dict(engine='codec', modes=['lang'], witness=True, values=(6, 14)),
+    'C05': dict(engine='codec', modes=['cut'], witness=False, values=(8, 60)),
     'C06': dict(engine='codec', modes=['cap'], witness=False, values=(10, 150)),
     'C10': dict(engine='codec', modes=['fault'], witness=False, values=(10, 150)),
-    'C11': dict(engine='codec', modes=['prior'], witness=False, values=(8, 100)),
+    'C11': dict(engine='codec', modes=['prior'], witness=False, values=(8, 40)),
     # engine 'util': harness/util_main.cpp (single binary); the model is the contract itself
     'C16': dict(engine='util', modes=['rseq', 'wseq'], witness=True),
     'C17': dict(engine='util', modes=['rseq', 'wseq'], witness=True),
@@ -186,27 +186,26 @@ class Run:
                 raise nv.BuildError('unknown engine ' + eng, '')
         self.cfg = top
 
+    def account(self, sums, rule, nontrivial=False):
+        self.cov['evaluations'] = self.cov.get('evaluations', 0) + sum(u.n_pairs for u in sums)
+        self.cov['distinct_nontrivial'] = self.cov.get('distinct_nontrivial', 0) + sum(
+            (u.distinct_nontrivial if nontrivial else u.distinct) for u in sums)
+        self.cov['rule'] = rule
+        for u in sums:
+            for smp in u.samples:
+                if len(self.samples) < 6:
+                    self.samples.append(smp)
+
     def util_stage(self):
         binary = nv.build_util()
-        evaluations = 0
-        distinct = set()
         for mode in self.cfg['modes']:
             args = ['--mode', mode, '--seed', str(self.seed)]
             if self.tier == 'thorough':
                 args.append('--thorough')
-            streams = nv.run_shards([binary], args)
-            self.absorb(streams, 'util/' + mode)
-            for s in streams:
-                evaluations += len(s.pairs)
-                for (mi, r) in s.pairs:
-                    distinct.add(hash(s.m[mi]))
-                for (mi, r) in s.pairs[:2]:
-                    if len(self.samples) < 6:
-                        self.samples.append({'op': s.m[mi][:300], 'impl': r[:300]})
-        self.cov['evaluations'] = self.cov.get('evaluations', 0) + evaluations
-        self.cov['distinct_nontrivial'] = self.cov.get('distinct_nontrivial', 0) + len(distinct)
-        self.cov['rule'] = ('each evaluation is one call sequence / input executed on the real library and on the Lean model and '
-                            'compared; distinct = distinct operation lines (every sequence contains at least one primitive call)')
+            sums = nv.pipeline([[binary] + args], self.driver)
+            self.absorb(sums, 'util/' + mode)
+            self.account(sums, 'each evaluation is one call sequence / input executed on the real library and on the Lean model and '
+                               'compared; distinct = distinct operation lines (every sequence contains at least one primitive call)')
 
     def statics_stage(self):
         import statics
@@ -226,73 +225,51 @@ class Run:
             binary = getattr(nv, self.cfg['builder'])()
         else:
             binary = nv.build_single(self.cfg['name'], self.cfg['source'], flags=self.cfg.get('flags'))
-        evaluations = 0
-        distinct = set()
         for run in self.cfg['runs']:
             args = list(run) + ['--seed', str(self.seed)]
             if self.tier == 'thorough':
                 args.append('--thorough')
-            streams = nv.run_sharded(binary, args, self.cfg.get('shards', nv.NSHARD))
-            self.absorb(streams, self.cfg['name'] + '/' + run[1])
-            for s in streams:
-                evaluations += len(s.pairs)
-                for (mi, r) in s.pairs:
-                    distinct.add(hash(s.m[mi]))
-                for (mi, r) in s.pairs[-2:]:
-                    if len(self.samples) < 6:
-                        self.samples.append({'op': s.m[mi][:300], 'impl': r[:300]})
-        self.cov['evaluations'] = self.cov.get('evaluations', 0) + evaluations
-        self.cov['distinct_nontrivial'] = self.cov.get('distinct_nontrivial', 0) + len(distinct)
-        self.cov['rule'] = ('each evaluation is one operation history / input executed on the real library and on the Lean model and '
-                            'compared (per-operation observations, final state of every object, event log); distinct = distinct history lines')
+            n = self.cfg.get('shards', nv.NSHARD)
+            sums = nv.pipeline([[binary] + args + ['--shard', str(i), '--nshard', str(n)] for i in range(n)], self.driver)
+            self.absorb(sums, self.cfg['name'] + '/' + run[1])
+            self.account(sums, 'each evaluation is one operation history / input executed on the real library and on the Lean model and '
+                               'compared (per-operation observations, final state of every object, event log); distinct = distinct history lines')
 
     def codec_stage(self, pair=False):
         bins = nv.build_pair(self.cfg.get('pool', 'x')) if pair else nv.build_codec(self.cfg.get('pool', 'a'))
         nvals = self.cfg['values'][1 if self.tier == 'thorough' else 0]
-        evaluations = 0
-        distinct = set()
         for mode in self.cfg['modes']:
             args = ['--mode', mode, '--seed', str(self.seed), '--values', str(nvals)]
             if self.tier == 'thorough':
                 args.append('--thorough')
-            streams = nv.run_shards(bins, args)
-            self.absorb(streams, ('pair/' if pair else 'codec/') + mode)
-            for s in streams:
-                evaluations += len(s.pairs)
-                for (mi, r) in s.pairs:
-                    if not r.startswith('err UnexpectedEncodingType'):
-                        distinct.add(hash(s.m[mi]))
-                if not self.samples:
-                    for (mi, r) in s.pairs[:3]:
-                        self.samples.append({'op': s.m[mi][:300], 'impl': r[:300]})
-        self.cov['evaluations'] = self.cov.get('evaluations', 0) + evaluations
-        self.cov['distinct_nontrivial'] = self.cov.get('distinct_nontrivial', 0) + len(distinct)
-        self.cov['rule'] = ('each evaluation is one operation executed on the real library and on the Lean model and compared; '
-                            'distinct = distinct operation lines; non-trivial = the implementation got past the first prefix byte '
-                            '(anything but UnexpectedEncodingType at the top level)')
+            sums = nv.pipeline([[b] + args for b in bins], self.driver)
+            self.absorb(sums, ('pair/' if pair else 'codec/') + mode)
+            self.account(sums, 'each evaluation is one operation executed on the real library and on the Lean model and compared; '
+                               'distinct = distinct operation lines; non-trivial = the implementation got past the first prefix byte '
+                               '(anything but UnexpectedEncodingType at the top level)', nontrivial=True)
 
-    def absorb(self, streams, label):
-        """Crashes, direct violations and model/implementation disagreements of one harness run."""
-        for s in streams:
-            if s.crash:
-                rc, err, last = s.crash
+    def absorb(self, sums, label):
+        """Crashes, direct violations and model/implementation disagreements of one harness run (shard summaries)."""
+        for u in sums:
+            if u.crash:
+                rc, err, last = u.crash
                 self.violations.append(dict(what='%s: harness aborted (sanitizer report or crash, exit %d)' % (label, rc),
                                             input={'last_op': last[:2000]}, log=err))
-        for s in streams:
-            for x in s.x:
+        for u in sums:
+            for x in u.x:
                 tag, rest = x.split(' ', 1)
                 if self.pid in tag.split('/'):
                     self.violations.append(dict(what=label + ': ' + rest.split(' ', 1)[0], input={'observation': rest[:4000]}))
                 else:
                     self.cov['other_property_observations'] = self.cov.get('other_property_observations', 0) + 1
-        st = nv.merge_stats(streams)
-        for k, v in st.items():
-            self.cov.setdefault('distribution', {})[k] = self.cov.get('distribution', {}).get(k, 0) + v
+        for u in sums:
+            for k, v in u.stats.items():
+                self.cov.setdefault('distribution', {})[k] = self.cov.get('distribution', {}).get(k, 0) + v
         if self.driver is None:
             self.notes.append('model driver unavailable: correspondence not evaluated, implementation-side property checks only')
             return
-        agree, dis = nv.compare(self.driver, streams)
-        self.cov['traces_validated_against_impl'] = self.cov.get('traces_validated_against_impl', 0) + agree
+        self.cov['traces_validated_against_impl'] = self.cov.get('traces_validated_against_impl', 0) + sum(u.agree for u in sums)
+        dis = [d for u in sums for d in u.dis]
         self.cov['disagreements'] = self.cov.get('disagreements', 0) + len(dis)
         for d in dis[:200]:
             if d['kind'] == 'result' and (self.cfg.get('witness') or d['op'].split(' ', 1)[0] in self.cfg.get('witness_ops', [])):
